@@ -39,13 +39,15 @@ Theorem C08_body_readable :
 Proof. exact body_readable. Qed.
 Print Assumptions C08_body_readable.
 
-(* refuted witness for guard class 1: a response header defined by `content` makes the validator
-   dereference a nil schema *)
-Theorem C08_refuted_header_by_content :
-  let d := mkRDef [mkHdr "X-A" false None false None] [] in
-  is_rpanic (fst (validate_response (fun _ => true) (fun _ _ => true) (fun _ _ _ => None)
-                    (mkVOpts false false false false) false 200 [("200", d)] "" None)) = true.
-Proof. vm_compute. reflexivity. Qed.
+(* formerly guard class 1 (repaired in /repo): a response header described by `content` is checked
+   for presence only, without a panic *)
+Example C08_header_by_content_checked_for_presence :
+  let d := mkRDef [mkHdr "X-A" true None false None] [] in
+  let d' := mkRDef [mkHdr "X-A" true None true None] [] in
+  let run d := fst (validate_response (fun _ => true) (fun _ _ => true) (fun _ _ _ => None)
+                      (mkVOpts false false false false) false 200 [("200", d)] "" None) in
+  run d = RErr (RHeaderMissing "X-A") /\ run d' = ROk.
+Proof. vm_compute. split; reflexivity. Qed.
 
 Example C08_hyps_satisfiable :
   let c := mkCore (Some ["integer"]) [] false false false false "" false false false None None None 0 None "" 0 None [] 0 None None in
